@@ -192,6 +192,36 @@ def run(ctx):
                         {"kind": "range_bounds", "start": a, "limit": b_, "delta": d, "claimed": [int(r[0]), int(r[1])],
                          "actual": [int(min(elems)), int(max(elems))]})
             break
+    # search (always on): the "known values fit" proof at the edges of every narrower integer type -- a Range whose extreme
+    # element is the type's true bound + k, k in -2..2, through INT64 -> T -> INT64
+    n_edge = 0
+    edge_bad = None
+    for code in codes:
+        try:
+            npdt = _np_dtype(ir, code)
+        except Exception:  # noqa: BLE001
+            npdt = None
+        if npdt is None or np.dtype(npdt).kind not in "iu" or np.dtype(npdt).itemsize >= 8:
+            continue
+        info = np.iinfo(npdt)
+        for k in (-2, -1, 0, 1, 2):
+            for (a, b_, d) in ((int(info.max) + k - 3, int(info.max) + k + 1, 1), (int(info.min) + k + 3, int(info.min) + k - 1, -1),
+                               (int(info.max) + k - 6, int(info.max) + k + 1, 3), (int(info.min) + k, int(info.min) + k + 5, 2)):
+                g, nodes, u = _range_graph(ir, a, b_, d)
+                elems = [int(e) for e in np.arange(a, b_, d, dtype=object)]
+                fits_really = all(int(info.min) <= e <= int(info.max) for e in elems)
+                claimed = bool(opt._cast_roundtrip_known_values_fit(nodes, u, int(ir.DataType.INT64), code))
+                n_edge += 1
+                if claimed and not fits_really and edge_bad is None:
+                    off = [e for e in elems if not int(info.min) <= e <= int(info.max)][0]
+                    wrapped = int(np.asarray([off], dtype=np.int64).astype(npdt).astype(np.int64)[0])
+                    edge_bad = (code, a, b_, d, off, wrapped)
+                    ctx.violate(f"known-values-fit {ir.DataType(code).name} Range({a},{b_},{d})",
+                                f"_cast_roundtrip_known_values_fit claims that every element of Range({a},{b_},{d}) fits {ir.DataType(code).name} "
+                                f"[{info.min}, {info.max}], so INT64->{ir.DataType(code).name}->INT64 is dropped; element {off} does not fit "
+                                f"(the casts turn it into {wrapped})",
+                                {"kind": "known_values_fit", "code": int(code), "start": a, "limit": b_, "delta": d, "element": off, "wrapped": wrapped})
+    ctx.coverage["type_edge_ranges_checked"] = n_edge
     ctx.coverage["range_triples_bruteforced"] = n_range_checked
     txt = common.CASES_HEADER + "From J2OGen Require Import LibTables GenCast.\n"
     txt += "Definition c1 : list (Z*Z*bool) := [" + "; ".join(f"({zlit(s)},{zlit(t)},{blit(b)})" for s, t, b in cases) + "].\n"
@@ -291,6 +321,11 @@ def replay(path):
         bad = b is not None and len(el) and (min(el) < b[0] or max(el) > b[1])
         print("bounds", b, "actual", (min(el), max(el)) if len(el) else None, "-> still violated" if bad else "-> ok")
         return 1 if bad else 0
+    if r.get("kind") == "known_values_fit":
+        g, nodes, u = _range_graph(ir, r["start"], r["limit"], r["delta"])
+        claimed = bool(opt._cast_roundtrip_known_values_fit(nodes, u, int(ir.DataType.INT64), r["code"]))
+        print("claims fit:", claimed, "| element", r["element"], "becomes", r["wrapped"])
+        return 1 if claimed else 0
     s, t = r["source"], r["intermediate"]
     print("decision now:", opt._cast_roundtrip_is_value_preserving(s, t))
     w, _ = roundtrip_witness(_np_dtype(ir, s), _np_dtype(ir, t), random.Random(0))
